@@ -1,0 +1,53 @@
+//go:build verif
+
+package vss
+
+// Hooks for the /verif correspondence harness (property C10). Compiled only
+// with the build tag `verif`; they expose internals, they change no behaviour.
+
+import (
+	"go.dedis.ch/kyber/v4"
+	"go.dedis.ch/kyber/v4/sign/schnorr"
+)
+
+// VerifSetDeal replaces the plaintext deal the dealer holds for verifier i, so
+// that a misbehaving dealer can be played through EncryptedDeal and
+// ProcessResponse.
+func (d *Dealer) VerifSetDeal(i int, deal *Deal) { d.deals[i] = deal }
+
+// VerifSessionID exposes sessionID.
+func VerifSessionID(suite Suite, dealer kyber.Point, verifiers, commitments []kyber.Point, t uint32) ([]byte, error) {
+	return sessionID(suite, dealer, verifiers, commitments, t)
+}
+
+// VerifSeal encrypts deal for the holder of recipient exactly as EncryptedDeal
+// does, with every ingredient chosen by the caller: ephemeral secret, key
+// signing the ephemeral public key, and the dealer key / verifier list the
+// HKDF and AEAD context is derived from.
+func VerifSeal(suite Suite, dhSecret, signKey kyber.Scalar, recipient, ctxDealer kyber.Point,
+	ctxVerifiers []kyber.Point, deal *Deal) (*EncryptedDeal, error) {
+	dhPublic := suite.Point().Mul(dhSecret, nil)
+	dhPublicBuff, _ := dhPublic.MarshalBinary()
+	signature, err := schnorr.Sign(suite, signKey, dhPublicBuff)
+	if err != nil {
+		return nil, err
+	}
+	ctx := context(suite, ctxDealer, ctxVerifiers)
+	pre := dhExchange(suite, dhSecret, recipient)
+	gcm, err := newAEAD(suite.Hash, pre, ctx)
+	if err != nil {
+		return nil, err
+	}
+	nonce := make([]byte, gcm.NonceSize())
+	dealBuff, err := deal.Marshal()
+	if err != nil {
+		return nil, err
+	}
+	return &EncryptedDeal{DHKey: dhPublicBuff, Signature: signature, Cipher: gcm.Seal(nil, nonce, dealBuff, ctx)}, nil
+}
+
+// VerifBadDealer, VerifT, VerifHasDeal and VerifTimeout expose aggregator state.
+func (a *Aggregator) VerifBadDealer() bool { return a.badDealer }
+func (a *Aggregator) VerifT() uint32       { return a.t }
+func (a *Aggregator) VerifHasDeal() bool   { return a.deal != nil }
+func (a *Aggregator) VerifTimeout() bool   { return a.timeout }
